@@ -225,7 +225,8 @@ def worker(args):
         lab.trees.reset()
         return rec.result()
     for u in range(args["universes"]):
-        ents = lab.new_universe(names=rng.sample(["a", "a-b", "ab", "b", "oph", "x_rig", "a.b", "rig"], 3))
+        ents = lab.new_universe(names=(rng.sample(["a", "a-b", "ab", "b", "oph", "x_rig", "a.b", "rig"], 3) if rng.random() < 0.5
+                                        else sorted({"rig", "x_rig", rng.choice(["a", "b", "oph"])})))
         uid = "%s-%d" % (args.get("seed"), u)
         case = {"ents": ents, "names": lab.names, "only_default": lab.only_default, "uid": uid}
         for k in range(args["searches"]):
